@@ -17,3 +17,18 @@ func VerifNewIdle(source string, begin, end, current uint32) *URLDownloader {
 // VerifAdvance is the `d.incrCurrent()` step of Run's completePiece (executed by the downloader
 // goroutine after the result of the previous piece has been handed to the torrent loop).
 func (d *URLDownloader) VerifAdvance() uint32 { return d.incrCurrent() }
+
+// VerifClosed reports whether Close() has been called.
+func (d *URLDownloader) VerifClosed() bool {
+	select {
+	case <-d.closeC:
+		return true
+	default:
+		return false
+	}
+}
+
+// VerifReset re-initialises an unclosed idle downloader (saves two channel allocations per state reload).
+func (d *URLDownloader) VerifReset(begin, end, current uint32) {
+	d.Begin, d.End, d.current = begin, end, current
+}
